@@ -447,6 +447,16 @@ pub fn run(o: &mut Out, seed: u64, thorough: bool, replay: Option<Vec<String>>) 
         if memo_dbg { ops2.push(OpK::M); }
         heap_case(o, &nodes, &ops2);
     }
+    // a doubling chain with more shared pairs than any plausible fixed memo capacity (thorough tier: the model
+    // hashes every level once): early levels are looked up again after all later ones were memoized
+    if thorough {
+        let k = 70_000usize;
+        let mut nodes = vec![Nd::A(canon(7)), Nd::A(r.bytes(2)), Nd::P(0, 1)];
+        for _ in 0..k { let t = nodes.len() - 1; nodes.push(Nd::P(t, t)); }
+        let top = nodes.len() - 1;
+        let ops = vec![OpK::H(top), OpK::H(top / 2), OpK::H(10), OpK::V(top), OpK::H(top), OpK::H(3), OpK::H(top / 2 + 1), OpK::H(top)];
+        heap_case(o, &nodes, &ops);
+    }
     for k in [5usize, 10, 20, 30] {
         // Fibonacci DAG
         let mut nodes = vec![Nd::A(canon(1)), Nd::A(canon(2))];
